@@ -292,6 +292,14 @@ pub proof fn axiom_tan(a: real)
 pub proof fn axiom_acos(x: real)
     requires -1real <= x <= 1real
     ensures cos_r(acos_r(x)) == x, sin_r(acos_r(x)) == sqrt_r(1real - x * x), 0real <= acos_r(x) <= pi_r() {}
+pub proof fn lemma_div_self(x: real) requires x != 0real ensures x / x == 1real {
+    assert(x / x == 1real) by (nonlinear_arith) requires x != 0real;
+}
+pub proof fn lemma_sqrt_zero() ensures sqrt_r(0real) == 0real {
+    axiom_sqrt(0real);
+    let s = sqrt_r(0real);
+    assert(s == 0real) by (nonlinear_arith) requires s * s == 0real;
+}
 pub proof fn lemma_sqrt_one() ensures sqrt_r(1real) == 1real {
     axiom_sqrt(1real);
     let s = sqrt_r(1real);
@@ -362,3 +370,12 @@ impl R {
 
 def prelude_text():
     return PRELUDE.replace('@SPEC_TRAITS@', SPEC_TRAITS).replace('@BINOPS@', _binop_impls())
+
+
+# only for units whose code converts u16 counters (a second From<integer> impl makes bare integer literals ambiguous elsewhere)
+FROM_U16 = """impl vstd::std_specs::convert::FromSpecImpl<u16> for crate::pre::R {
+    open spec fn obeys_from_spec() -> bool { true }
+    open spec fn from_spec(v: u16) -> crate::pre::R { crate::pre::rr(v as real) }
+}
+impl From<u16> for crate::pre::R { fn from(v: u16) -> (r: crate::pre::R) { crate::pre::R { v: Ghost(v as real) } } }
+"""
